@@ -521,8 +521,16 @@ func concatToolCalls(chunks []ToolCall) ([]ToolCall, error) {
 		}
 	}
 
+	// visit the index groups in index order: which of two inconsistent groups is reported must not depend on map order
+	indexes := make([]int, 0, len(m))
+	for k := range m {
+		indexes = append(indexes, k)
+	}
+	sort.Ints(indexes)
+
 	var args strings.Builder
-	for k, v := range m {
+	for _, k := range indexes {
+		v := m[k]
 		index := k
 		toolCall := ToolCall{Index: &index}
 		if len(v) > 0 {
